@@ -25,6 +25,9 @@ RULE += (
     ' CRC-colliding twins of the same frame were parsed); cell masks wider than 64 bits are checked only'
     " for 'accepted => decoded as announced'; a second, pinned oracle (vf.stdlayout) for 134 identities."
 )
+RULE += (
+    " Also: the frame read through one stream reader behind a CRC collider of the same length; 4076_201 layers related by an equal cosine-coefficient count."
+)
 ASSUMPTIONS = [
     "definition tables are read as data (their conformance to the standards is C10's subject)",
     "STR code units are generated in 1..255 (zero code units are not claimed); harmonic orders M <= N",
@@ -41,6 +44,17 @@ def parse(payload, rep="bytes", entry="ctor"):
 
     if entry == "ctor":
         return RTCMMessage(payload=streams.as_rep(rep, payload))
+    if entry == "reader":
+        # through ONE stream reader, behind a different valid frame of the same length with the same checksum bytes
+        import io
+
+        fr = refcrc.frame(payload)
+        twin = streams.crc_collider(fr, __import__("random").Random(len(payload)))
+        data = (twin if twin is not None else b"") + fr
+        out = [m for raw, m in RTCMReader(io.BytesIO(data), quitonerror=0) if bytes(raw) == fr]
+        if not out:
+            raise RuntimeError("the frame was not returned by the reader")
+        return out[-1]
     return RTCMReader.parse(streams.as_rep(rep, refcrc.frame(payload)))
 
 
@@ -82,7 +96,7 @@ def check_message(ctx, identity, vs, cs, ms, pad1, seedtag):
     monitors.CURRENT["identity"] = identity
     # entry point and representation of the caller's data (all derived from the case seed)
     rep = streams.pick_rep(rng, 0.6)
-    entry = "ctor" if rng.random() < 0.6 or len(enc.payload) > 1023 else "frame"
+    entry = "ctor" if rng.random() < 0.6 or len(enc.payload) > 1023 else rng.choice(("frame", "frame", "reader"))
     ctx.hit("entry:" + entry)
     ctx.hit("rep:" + rep)
     if entry == "frame" and rng.random() < 0.5:
